@@ -53,6 +53,8 @@ func (e *Ev) evGhostCall(x *ast.CallExpr) Val {
 			return VInt{"(bs_len " + a.T + ")"}
 		case VRunes:
 			return VInt{a.N}
+		case VRefs:
+			return VInt{a.N}
 		}
 		e.unsupp(x, "len of %T", arg(0))
 	case "implies":
@@ -77,6 +79,22 @@ func (e *Ev) evGhostCall(x *ast.CallExpr) Val {
 		o := *e.loopEntryEv
 		o.bound = e.bound
 		return o.ev(x.Args[0])
+	case "forallref":
+		// forallref(p, P): P for every reference p (an integer)
+		kid, ok := x.Args[0].(*ast.Ident)
+		if !ok || len(x.Args) != 2 {
+			e.unsupp(x, "forallref(p, P) expects an identifier and a body")
+		}
+		quantSeq++
+		kn := fmt.Sprintf("%s!%d", kid.Name, quantSeq)
+		sub := *e
+		sub.bound = map[string]Val{}
+		for k, v := range e.bound {
+			sub.bound[k] = v
+		}
+		sub.bound[kid.Name] = VInt{kn}
+		body := sub.boolOf(sub.ev(x.Args[1]), x.Args[1])
+		return VBool{fmt.Sprintf("(forall ((%s Int)) %s)", kn, body)}
 	case "forallkey":
 		// forallkey(k, P): P for every string contents k (a ghost sequence)
 		kid, ok := x.Args[0].(*ast.Ident)
@@ -359,6 +377,8 @@ func (e *Ev) evGhostCall(x *ast.CallExpr) Val {
 			return fx.ifaceAt(a, i, true)
 		case VStr:
 			return fx.byteAt(a, i, true)
+		case VRefs:
+			return VRef{sSel(a.Arr, i), a.Elem}
 		}
 		e.unsupp(x, "at of %T", arg(0))
 	}
